@@ -601,6 +601,30 @@ def nothing_cases(tier):
                        tags=['maybe', 'maybe=' + ('empty' if exp == 'nothing' else 'value')])
 
 
+def intofn_cases(tier, rng):
+    """the output argument of array::fn itself (transpose with default axes, sum over an axis)"""
+    h = 'h_c10_d1'
+    if not any(t['name'] == h for t in TUS):
+        return
+    for _ in range(12 if tier == 'quick' else 60):
+        s = [rng.randint(1, 4) for _ in range(rng.randint(2, 3))]
+        x = leaf(s, 0, np.int64)
+        if rng.random() < 0.5:
+            r, args = np.transpose(x), 'fn=transpose_n a=%s' % fmt(s)
+        else:
+            ax, keep = rng.randrange(len(s)), rng.randint(0, 1)
+            r, args = np.sum(x, axis=ax, keepdims=bool(keep)), 'fn=sum a=%s axis=%d keep=%d' % (fmt(s), ax, keep)
+        vshape = list(r.shape)
+        wrong = [w for w in (vshape[::-1], [prod(vshape)], vshape + [1], [e + 1 for e in vshape]) if w != vshape]
+        for oshape, lay in [(vshape, 'row'), (vshape, 'col'), (rng.choice(wrong), rng.choice(['row', 'col']))]:
+            right = oshape == vshape
+            exp = ('ok shape=%s buf=%s' % (fmt(oshape), toks_of(r, np.int64, 'C' if lay == 'row' else 'F')) if right else
+                   'ok shape=%s buf=%s events=3:1' % (fmt(oshape), ','.join(['-7'] * prod(oshape))))
+            yield Case('intofn %s oshape=%s olayout=%s' % (args, fmt(oshape), lay), h, oracle=exp, nontrivial=True,
+                       mreq='eval_into vshape=%s vdata=%s oshape=%s olayout=%s init=-7' % (fmt(vshape), toks_of(r, np.int64), fmt(oshape), lay),
+                       tags=['intofn', 'out=' + ('right-shape' if right else 'wrong-shape'), 'olayout=' + lay])
+
+
 def adl_cases():
     if os.environ.get('C10_ONLY') and 'h_c10_adl' not in os.environ['C10_ONLY']:
         return
@@ -613,6 +637,7 @@ def adl_cases():
 def gen(tier, rng):
     yield from nothing_cases(tier)
     yield from adl_cases()
+    yield from intofn_cases(tier, rng)
     for t in TUS:
         if tier in t['tiers']:
             yield from gen_tu(t, tier, rng)
